@@ -126,6 +126,15 @@ Fixpoint sb_decode_all (tbl : sb_table) (ls : list text) : option (list text) :=
    open(..., 'r', encoding=<a single-byte codec with the given table>) *)
 Inductive fmode := Binary | TextUtf8 | TextLatin1 | TextTable (tbl : sb_table).
 
+(* try: encoding = encoding or file_obj.encoding / except AttributeError: encoding = None
+   (arg = the encoding argument, own = the handle's .encoding; binary handles have none) *)
+Definition pick_encoding (arg own : option fmode) : option fmode :=
+  match arg with
+  | Some e => Some e                         (* truthy argument: `or` never looks at the handle *)
+  | None => match own with Some e => Some e | None => None end
+  end.
+Definition mode_of (e : option fmode) : fmode := match e with Some m => m | None => Binary end.
+
 (* list(reverse_iter_lines(f, blocksize)): Ok lines | Raise ValueError (UnicodeDecodeError)
    | Raise RuntimeError = model out of fuel *)
 Definition reverse_iter_lines (m : fmode) (c : text) (bs pos : nat) : res (list text) :=
